@@ -578,6 +578,16 @@ func SolveAll(obls []*Obligation, timeoutMs int, need int) {
 				}
 			}
 			r, _ := Solve(o.Query, id, tmo, o.Models, nd)
+			if !o.ExpectFail && r.Verdict != "unsat" && r.Verdict != "sat" {
+				// unstable quantifier instantiation: one more attempt with another seed and twice the time,
+				// so that a slow day of a solver is not reported as a failed proof
+				r2, _ := Solve("(set-option :smt.random_seed 11)\n(set-option :sat.random_seed 11)\n"+o.Query, id+"_r", 2*tmo, o.Models, 1)
+				if r2.Verdict == "unsat" || r2.Verdict == "sat" {
+					r2.Backend += " (retry)"
+					r2.Ms += r.Ms
+					r = r2
+				}
+			}
 			o.Res = r
 		}(i, o)
 	}
